@@ -27,6 +27,11 @@ def run(ck):
     ck.rule("C11-O2", "SimplePipeline::flush -> recursiveFlush(this): every handler is visited; each Sink is flushed, each nested Pipeline is descended into; no early exit")
     ck.rule("C11-O3", "FileSink::flush flushes its QFile and RotatingFileSink does not hide it; the file written by IODeviceSink::send is the file that is flushed")
     every_record_is_written(ck)
+    ck.rule("C11-O7", "a file sink's device is its own: no static variable written on the way from a file sink's constructor, send(), flush() or destructor holds anything but constants "
+                      "(a QFile shared through a process-wide table is closed by the first sink that goes away; every later record, the fatal one included, goes to a closed device)")
+    from rules.oth import shared_static_state
+    fs_roots = [f_ for f_ in F.fns.values() if f_.body is not None and strip_tmpl(f_.cls or "") in ("QtLogger::FileSink", "QtLogger::RotatingFileSink", "QtLogger::IODeviceSink")]
+    shared_static_state(ck, F, "C11-O7", "its own logger's mutex", roots=fs_roots, min_roots=6, what="file sinks")
     pm = F.fn(LG + "::processMessage")
     ck.touch(pm)
     g = Graph(pm)
